@@ -197,7 +197,7 @@ class Run:
                 return
             self.actual.add(a["reg"])
             self.period[a["reg"]] += 1
-            self._watch(a["reg"])
+            self._watch(a["reg"], pos)
         elif a["kind"] == "unwatch":
             if a["reg"] in self.retired or a["reg"] not in self.actual:
                 return
@@ -215,14 +215,26 @@ class Run:
         else:
             d.stop_watch_service(net.client_filter(C, f), self.listeners[reg])
 
-    def _watch(self, reg):
+    def _watch(self, reg, pos=-1):
+        import gc
         import someip.config as C
 
         f = REGS[reg]
+        listener = self.listeners[reg]
+        inline = reg not in SHARED and not any(a.get("reg") == reg and a["kind"] in ("unwatch", "arm")
+                                               for _t, _r, a in self.script[pos + 1:])
+        if inline:
+            # a registration the application never takes back needs no handle: the listener is created in the call itself and
+            # nothing but the library refers to it afterwards (its reports still arrive here through the closure)
+            listener = self._listener(reg)
+            self.stats["listeners_registered_inline"] = self.stats.get("listeners_registered_inline", 0) + 1
         if f is None:
-            self.prot.discovery.watch_all_services(self.listeners[reg])
+            self.prot.discovery.watch_all_services(listener)
         else:
-            self.prot.discovery.watch_service(net.client_filter(C, f), self.listeners[reg])
+            self.prot.discovery.watch_service(net.client_filter(C, f), listener)
+        if inline:
+            del listener
+            gc.collect(0)
 
     # ---- idle-point oracle
     def on_idle(self):
@@ -536,6 +548,7 @@ def judge(ctx, init, builder, seqkey, seed, replay, core):
     for k in ("idle_truth_checks", "alternation_events", "reboot_order_checks", "offered_required_checks"):
         ctx.count(k, run.stats[k])
     ctx.count("reentrant_unwatch_calls", run.stats.get("reentrant_unwatch_calls", 0))
+    ctx.count("listeners_registered_inline", run.stats.get("listeners_registered_inline", 0))
     for t, rank, a in builder.script:
         pass
     for mech, detail in run.violations[:2]:
